@@ -131,6 +131,14 @@ pub fn check_graph(b: &Built, rec: &Recorder, c: &mut Counters, weighted_modes: 
             calls += 1;
             let all: Vec<usize> = (0..b.n).collect();
             cmp("dijkstra::all_pairs", format!("{}|ap:w={}", b.case, weighted), guarded(|| dijkstra::all_pairs(&b.g, weighted, None, None, false, true)), &all);
+            // the same two entry points with the parallel code path forced (hook H6; real rayon, whatever schedule occurs)
+            calls += 2;
+            graphrs::verif_hooks::set_parallel_override(Some(true));
+            let rp = guarded(|| dijkstra::all_pairs(&b.g, weighted, None, None, false, true));
+            let rm = guarded(|| dijkstra::multi_source(&b.g, weighted, all.iter().rev().map(|i| b.names[*i]).collect(), None, None, false, true));
+            graphrs::verif_hooks::set_parallel_override(None);
+            cmp("dijkstra::all_pairs", format!("{}|ap-par:w={}", b.case, weighted), rp, &all);
+            cmp("dijkstra::multi_source", format!("{}|ms-par:w={}", b.case, weighted), rm, &all);
             if multi_source_subsets && b.n <= 4 {
                 for mask in 1..(1usize << b.n) {
                     let srcs: Vec<usize> = (0..b.n).filter(|i| mask >> i & 1 == 1).collect();
